@@ -7,6 +7,9 @@ normal form the hash is meant to respect).
 Quantifiers: all values; all texts; all pairs of event streams (`List SItem`: events, possibly ending in an error item).
 -/
 import SwimVerif.Proofs.ReconEqMat
+import SwimVerif.Proofs.ReconEqLeaves
+import SwimVerif.Proofs.ReconEqHash
+import SwimVerif.Model.ReconEqProto
 import SwimVerif.Proofs.ReconStruct
 
 namespace SwimVerif.ReconEq
@@ -101,51 +104,83 @@ example : incrementalCompare (stream (events "@a(1,2)".toList)) (stream (events 
 example : incrementalCompare (stream (events "@a(1)".toList)) (stream (events "@a({1})".toList)) = some false := by
   decide +kernel
 
-/-! ## "equal ⇒ same hash" is false of `recon_hash` as it is (findings C15-N1, C15-N2)
+/-! ## the hash after the repairs C15-N1 (/repo 093eb3d) and C15-N2 (/repo 881b1c8)
 
 The two flags are read from the source on every run (`Generated/ReconEqConsts.lean`): `floatHashZeroNormalised` is
-`false` while `NumericValue::hash` writes `to_bits` of a float, `implicitByStructure` is `false` while
-`is_implicit_record` scans the text.  The witnesses are stated under the flag they depend on, so that a repaired tree
-fails the two `example`s below at once (and cheaply) instead of a long kernel evaluation. -/
+`true` since `NumericValue::hash` writes `-0.0` as `0.0`, `implicitByStructure` is `true` since `is_implicit_record`
+reads the attribute body ahead with the parser instead of scanning the text.  The regression theorems are stated under
+the flag they depend on, so that a tree with a repair reverted fails the two `example`s at once (and cheaply) instead
+of a long kernel evaluation; the monitor classes `negzero` / `implicit-scan` are then violations (the known-findings
+entries are `fixed`, they suppress nothing). -/
+
+example : floatHashZeroNormalised = true := by decide
+example : implicitByStructure = true := by decide
 
 /-- The statement of the property for the hash. -/
 def C15_eq_same_hash : Prop := ∀ a b : List Char, compareRecon a b = true → hashCalls a = hashCalls b
 
-example : floatHashZeroNormalised = false := by decide
-example : implicitByStructure = false := by decide
-
-/-- C15-N1: `NumericValue::hash` writes `f64::to_bits`, so `-0.0` and `0.0` (equal as events and as values) differ. -/
-theorem C15_hash_negzero_witness : floatHashZeroNormalised = false →
+/-- C15-N1 repaired: `-0.0` and `0.0` (equal as events and as values) hash alike. -/
+theorem C15_hash_negzero_repaired : floatHashZeroNormalised = true →
     (compareRecon "-0.0".toList "0.0".toList = true ∧
      (parseValue "-0.0".toList).isSome = true ∧ (parseValue "0.0".toList).isSome = true ∧
-     hashCalls "-0.0".toList ≠ hashCalls "0.0".toList) := by decide +kernel
+     hashCalls "-0.0".toList = hashCalls "0.0".toList) := by decide +kernel
 
-/-- C15-N2 (a): `is_implicit_record` scans the text after `@name(` for `,` `;` `:`; items separated by a new line are
-an implicit record it does not see. -/
-theorem C15_hash_newline_witness : implicitByStructure = false →
+/-- C15-N2 (a) repaired: items of an attribute body separated by a new line are the implicit record they are. -/
+theorem C15_hash_newline_repaired : implicitByStructure = true →
     (compareRecon "@a(1\n2)".toList "@a(1,2)".toList = true ∧
-     (parseValue "@a(1\n2)".toList).isSome = true ∧
      parseValue "@a(1\n2)".toList = parseValue "@a(1,2)".toList ∧
-     hashCalls "@a(1\n2)".toList ≠ hashCalls "@a(1,2)".toList) := by decide +kernel
+     hashCalls "@a(1\n2)".toList = hashCalls "@a(1,2)".toList ∧
+     hashCalls "@a(1\n2)".toList = hashCalls "@a({1,2})".toList) := by decide +kernel
 
-/-- C15-N2 (b): the scan does not know string literals: a `,` inside a string makes a single item an "implicit record". -/
-theorem C15_hash_string_delimiter_witness : implicitByStructure = false →
+/-- C15-N2 (b) repaired: delimiters inside string literals do not count. -/
+theorem C15_hash_string_delimiter_repaired : implicitByStructure = true →
     (compareRecon "@a(\"b,\")".toList "@a(\"b\\u002c\")".toList = true ∧
-     (parseValue "@a(\"b,\")".toList).isSome = true ∧
-     parseValue "@a(\"b,\")".toList = parseValue "@a(\"b\\u002c\")".toList ∧
-     hashCalls "@a(\"b,\")".toList ≠ hashCalls "@a(\"b\\u002c\")".toList) := by decide +kernel
+     hashCalls "@a(\"b,\")".toList = hashCalls "@a(\"b\\u002c\")".toList ∧
+     hashCalls "@a(\"(\", 2)".toList = hashCalls "@a(\"\\u0028\", 2)".toList ∧
+     hashCalls "@a(\"(\", 2)".toList = hashCalls "@a({\"(\", 2})".toList) := by decide +kernel
 
-/-- So the hash half of the property is false of the code as it is (either defect suffices). -/
-theorem C15_eq_same_hash_fails (h : floatHashZeroNormalised = false ∨ implicitByStructure = false) :
-    ¬ C15_eq_same_hash := by
+/-- With C15-N1 repaired the hasher calls of every event are its normal-form calls … -/
+theorem C15_event_hash_is_normal (e : Event) : evCalls e = evCallsN e :=
+  evCalls_eq_evCallsN (by decide) e
+
+/-- … so on the canonical event stream of ANY value the hasher calls are `hnorm`, and (with `C15_hash_respects`)
+canonical streams of equal values hash alike. -/
+theorem C15_hash_canonical (v w : Value) (h : veq v w = true) :
+    (evsV v).flatMap evCalls = hnorm v ∧ (evsV v).flatMap evCalls = (evsV w).flatMap evCalls :=
+  hash_canonical (by decide) v w h
+
+/-- With C15-N2 repaired too — the implicit-record decision is a look-ahead on the events (`implicitLook`) — the
+event-level `HashParser` (`hashEvs`) gives the normal form `hnorm v` on EVERY layout of EVERY value: `ch` chooses, per
+attribute name, whether a body that may be written without braces is (`@a(1,2)` / `@a(k:1)` vs `@a({1,2})` /
+`@a({k:1})`); `fun _ => true` is the printers' layout.  Hence equal values hash alike whatever mixture of implicit and
+explicit attribute bodies, integer kinds and zero signs their two texts use.  (That `hashCalls text` is `hashEvs` of
+the text's events is checked by the monitor on every `hash` line: reason `model-self-check:hash-events`.) -/
+theorem C15_hash_layout_invariant (ch1 ch2 : List Char → Bool) (v w : Value) (h : veq v w = true) :
+    hashEvs [] (evsG ch1 v) = hnorm v ∧ hashEvs [] (evsG ch1 v) = hashEvs [] (evsG ch2 w) := by
+  have e1 := hashEvs_layout (ch := ch1) v
+  have e2 := hashEvs_layout (ch := ch2) w
+  have hc := hash_canonical (by decide) v w h
+  unfold callsE at e1 e2
+  exact ⟨e1.trans hc.1, by rw [e1, e2]; exact hc.2⟩
+
+/-- The printers' layout `evsP` is what the modelled parser reads from the modelled printers' output (sample). -/
+example :
+    let v : Value := .record (.cons "a".toList (.record .nil (.val (.int .i32 1) (.val (.text "x".toList) .nil)))
+        (.cons "b".toList (.record .nil (.slot (.text "k".toList) (.record .nil (.val (.int .i32 2) .nil)) .nil)) .nil))
+        (.val (.int .i32 3) (.val (.record .nil (.val (.int .i32 4) .nil)) .nil))
+    (events (print .std v)).1 = evsP v ∧ (events (print .compact v)).1 = evsP v ∧ (events (print .pretty v)).1 = evsP v ∧
+    hashCalls (print .pretty v) = hnorm v := by
+  decide +kernel
+
+/-- The hash half of the property is still false of the code, now only because of the comparison (C15-N3): `{{1,2}}`
+and `{1,{2}}` compare equal, are different values, and (rightly) hash differently. -/
+theorem C15_eq_same_hash_fails : ¬ C15_eq_same_hash := by
   intro hp
-  rcases h with h | h
-  · have w := C15_hash_negzero_witness h
-    exact w.2.2.2 (hp _ _ w.1)
-  · have w := C15_hash_newline_witness h
-    exact w.2.2.2 (hp _ _ w.1)
+  have := hp "{{1,2}}".toList "{1,{2}}".toList (by decide +kernel)
+  revert this
+  decide +kernel
 
-/-- What does hold at the level of values (`C15_hash_respects`) is reached by the real hash on well-scanned
+/-- What holds at the level of values (`C15_hash_respects`) is reached by the real hash on these
 spellings: the calls are the normal form of the parsed value, so implicit and explicit bodies hash alike. -/
 theorem C15_eq_same_hash_partial :
     (parseValue "@a(1,2)".toList).map hnorm = some (hashCalls "@a(1,2)".toList) ∧
@@ -178,6 +213,28 @@ theorem C15_cmp_sound_on_printed_fails :
     print .compact (.record .nil (.val (.int .i32 1) (.val (.record .nil (.val (.int .i32 2) .nil)) .nil))) = "{1,{2}}".toList ∧
     compareRecon "{{1,2}}".toList "{1,{2}}".toList = true ∧
     hashCalls "{{1,2}}".toList ≠ hashCalls "{1,{2}}".toList := by decide +kernel
+
+/-- WHEN the comparator answers `Some(true)` — all pairs of event streams that are each one complete value (the validator
+is `InProgress` strictly inside, `Init` at the end): the two streams have the same events in the same order except for
+where their `StartBody` / `EndRecord` events stand.  The comparator never confuses leaves, attributes or slots; the only
+thing it can get wrong is the position of braces. -/
+theorem C15_cmp_true_only_moves_braces (a b : List Event) (ha : Single a) (hb : Single b)
+    (h : incrementalCompare (a.map .ev) (b.map .ev) = some true) :
+    evsAgree (leavesOf a) (leavesOf b) = true := compare_true_same_leaves a b ha hb h
+
+/-- Hence the monitor's class for C15-N3 is exact: whenever `compare_recon_values` (as modelled) says `true` for two
+valid single-value texts, the pair is in the class `same-leaves` — there is no `other` merge the modelled code can
+make, so the known-finding entry cannot hide a different defect of the comparison. -/
+theorem C15_merge_class_exact (a b : List Char) (fa : (events a).2 = .fin) (fb : (events b).2 = .fin)
+    (ha : singleB (events a).1 = true) (hb : singleB (events b).1 = true) (h : compareRecon a b = true) :
+    mergeClass a b = "same-leaves" := by
+  have hl := compareRecon_true_same_leaves a b fa fb ha hb h
+  unfold mergeClass
+  simp [fa, fb, ha, hb, hl, h]
+
+example : singleB (events "{{1,2}}".toList).1 = true ∧ singleB (events "@a(1) {k: {2}}".toList).1 = true ∧
+    singleB (events "7".toList).1 = true ∧ mergeClass "{{1,2}}".toList "{1,{2}}".toList = "same-leaves" := by
+  decide +kernel
 
 /-- What holds (for ALL values): equal values in canonical layout compare equal — the "never split" half on canonical
 streams (`C15_cmp_complete_canonical`), and a text compares equal to itself / an invalid text only to itself
